@@ -5,3 +5,4 @@ pub mod fnm;
 pub mod optparse;
 pub mod expand;
 pub mod ctl;
+pub mod glob;
